@@ -283,6 +283,32 @@ def run(ctx):
                     res.violation("Y-2PHASE", xv.fi.short, norm(c)[:110], "update-then-draw", f"nodes are drawn from `{t}` after `{norm(late[0])[:60]}` has updated it for the nodes already chosen for this hyperedge: the pool now contains those very nodes (a node demoted to the class can be drawn again; the hyperedge collapses below the requested size)", loc(xv.fi, c))
         if n_loops == 0:
             res.unknown("Y-2PHASE", xv.fi.short, "while n_nodes_sampled < hye_size: ... rng.choice(list(nodes_with_deg[deg]), ...)", "draw-then-update", "the drawing loop was not recognised", loc(xv.fi, xv.fi.node))
+    # ---- Y-SWAPPAIR: an accepted move replaces BOTH hyperedges of the drawn pair; the pair keeps the multiset union of its
+    #      nodes only when the two write-backs happen together
+    with res.guard("Y-SWAPPAIR"):
+        res.rules["Y-SWAPPAIR"] = "_mcmc_step writes both reshuffled hyperedges back under the same conditions (a move is applied to both slots or to none: the pair keeps its nodes' degrees)"
+        mv_ = ctx.view("HyMMSBMSampler._mcmc_step")
+        lists = [a.arg for a in mv_.fi.params if a.arg != "self"]
+        stores = [n for n in walk_no_nested(mv_.fi.node) if isinstance(n, ast.Assign) and len(n.targets) == 1 and isinstance(n.targets[0], ast.Subscript) and isinstance(n.targets[0].value, ast.Name) and n.targets[0].value.id in lists]
+        if not stores:
+            res.unknown("Y-SWAPPAIR", mv_.fi.short, "hye_list[idx1] = ...; hye_list[idx2] = ...", "both-or-none", "the write-back of an accepted move was not recognised (it may be delegated)", loc(mv_.fi, mv_.fi.node))
+        else:
+            encl = [{id(i): i for i in mv_.enclosing_all(s_, (ast.If,))} for s_ in stores]
+            common = set.intersection(*[set(e) for e in encl])
+            lone = [(s_, e[k]) for s_, e in zip(stores, encl) for k in e if k not in common]
+            # a single store inside a loop over the (slot, hyperedge) pairs, under a test on the loop's own variables
+            for s_ in stores:
+                lp = mv_.enclosing(s_, (ast.For,))
+                if lp is not None:
+                    tn = {x.id for x in ast.walk(lp.target) if isinstance(x, ast.Name)}
+                    for i in mv_.enclosing_all(s_, (ast.If,)):
+                        if any(i is y for y in ast.walk(lp)) and tn & {x.id for x in ast.walk(i.test) if isinstance(x, ast.Name)}:
+                            lone.append((s_, i))
+            if lone:
+                s_, i = lone[0]
+                res.violation("Y-SWAPPAIR", mv_.fi.short, norm(s_)[:100], "both-or-none", f"the write-back `{norm(s_)[:50]}` stands under `{norm(i.test)[:50]}`, a condition of its own slot: when it holds for one of the two proposed hyperedges only, one slot takes the reshuffled hyperedge and the other keeps the old one - a node gains an incidence and another loses one (degrees are no longer conserved by the chain)", loc(mv_.fi, s_))
+            else:
+                res.ok("Y-SWAPPAIR", mv_.fi.short, norm(stores[0])[:100], "both-or-none", loc(mv_.fi, stores[0]))
     with res.guard("Y-WEIGHTED"):
         v = ctx.view("HyMMSBMSampler.sample")
         f = v.fi.short
